@@ -221,9 +221,10 @@ func genRelayNeg(s *src, o *out) {
 	}
 	rs := s.fn("TrzszRelay.resetToStandby").Body.List
 	guard := "if !r.relayStatus.CompareAndSwap(status, kRelayStandBy) { return }"
-	if len(rs) == 0 || s.text(rs[0]) != guard {
-		die("relayneg: resetToStandby no longer starts with the CompareAndSwap guard")
-	}
+	// not fatal: the shape is reported as a constant and pinned by Proofs/RelayNeg.v
+	// (reset_guard_src_ok), so that a reset without the expected-state guard breaks that lemma
+	// -- and leaves the models translatable and executable for the search engines (C13)
+	o.raw("Definition relayneg_reset_guard_is_cas : bool := %v.\n", len(rs) > 0 && s.text(rs[0]) == guard)
 	o.raw("Definition relayneg_reset_clears_tunnel_flag : bool := %v.\n", top("TrzszRelay.resetToStandby", "r.tunnelConnected.Store(false)"))
 	o.raw("Definition relayneg_handshake_sets_tunnel_flag : bool := %v.\n", top("TrzszRelay.handshake", "r.tunnelConnected.Store(action.TunnelConnected)"))
 	cond := ""
